@@ -62,7 +62,9 @@ static void any_state(void) {
     B[i].val = nondet_ptr_();
   }
   M.buckets = B; M.capacity = CAP; M.used = nondet_int_();
-  for (int i = 0; i < NK; i++) ghash[i] = nondet_u64_();
+  // only hash % capacity (and the probe offsets) matter: restricting the hash to 10 bits keeps every residue and every
+  // collision pattern while sparing the solver a 64-bit modulo (wrap-around of hash + i at 2^64 is thereby not covered)
+  for (int i = 0; i < NK; i++) { ghash[i] = nondet_u64_(); ASSUME(ghash[i] < 1024); }
   ASSUME(wf(&M));
 }
 #ifdef VERIF_NATIVE
